@@ -107,6 +107,12 @@ pub fn exec(c: &Case, em: &mut Emitter) {
             .expect("submit");
     }
     em.emit(json!({"t":"begin"}));
+    let nv = || unsafe {
+        let mut ru: libc::rusage = std::mem::zeroed();
+        libc::getrusage(libc::RUSAGE_THREAD, &mut ru);
+        ru.ru_nvcsw
+    };
+    let nv0 = nv();
     let real = Instant::now();
     let mut turns = 0u64;
     let mut written = false;
@@ -125,7 +131,7 @@ pub fn exec(c: &Case, em: &mut Emitter) {
         Some((a, b, x)) => json!({"start": a - T0, "end": b - T0, "extra": x}),
         None => json!(null),
     }).collect();
-    em.emit(json!({"t":"end","tasks":res,"virtual_ns": now() - T0, "real_over_1500ms": real.elapsed().as_millis() > 1500, "turns": turns}));
+    em.emit(json!({"t":"end","tasks":res,"virtual_ns": now() - T0, "loop_thread_slept_for_real": nv() - nv0 >= 1 && real.elapsed().as_millis() >= 900, "turns": turns}));
     lp.leave();
     lp.forget();
 }
@@ -184,8 +190,10 @@ pub fn judge(c: &Case, res: &ChildResult, rep: &mut Report) {
         return;
     }
     // the loop thread itself must never really block for the waits
-    if e["real_over_1500ms"] == true && longest >= 1000 * MS {
-        rep.violation("c15.mix/loop-thread-not-blocked-for-real/-", format!("{}: more than 1500ms of REAL time passed while the virtual clock owned all waiting", c.to_json()), replay());
+    // (a starved machine makes a run slow, but only a thread that really blocks gives up the CPU
+    // voluntarily: both together are the observation)
+    if e["loop_thread_slept_for_real"] == true && longest >= 1000 * MS {
+        rep.violation("c15.mix/loop-thread-not-blocked-for-real/-", format!("{}: the loop thread gave up the CPU voluntarily and about a second of REAL time passed although the virtual clock owned all waiting", c.to_json()), replay());
         return;
     }
     if c.tasks.len() >= 2 && sum > longest + SLACK {
